@@ -15,6 +15,7 @@ void harness(void)
 	size_t rc0 = verif_nd_size("refcount");
 	size_t k = verif_nd_size("witness");
 	sqfs_u8 *odata = NULL, v = 0;
+	unsigned calls0;
 	long live0;
 	bool order;
 
@@ -38,6 +39,7 @@ void harness(void)
 	if (N > 0)
 		v = odata[k];
 	live0 = g_live;
+	calls0 = g_alloc_calls;
 
 	g_oom_enabled = 1;
 	c = sqfs_copy(o);
@@ -56,8 +58,8 @@ void harness(void)
 	if (c == NULL) {
 		VERIF_ASSERT(g_alloc_failed > 0, C19_OB("succeeds"));
 		VERIF_ASSERT(g_live == live0, C19_OB("oom.no_leak"));
-		VERIF_COVER(g_alloc_failed == 1 && g_alloc_calls == 1);
-		VERIF_COVER(g_alloc_failed == 1 && g_alloc_calls == 2);
+		VERIF_COVER(g_alloc_failed == 1 && g_alloc_calls - calls0 == 1);
+		VERIF_COVER(g_alloc_failed == 1 && g_alloc_calls - calls0 == 2);
 	} else {
 		VERIF_COVER(g_alloc_failed == 0);
 		VERIF_ASSERT(c->base.destroy == TBL_DESTROY &&
